@@ -40,7 +40,7 @@ def lobatto(n):
     return x, w
 
 
-def integrate_adaptive_1d(logp, a, b, tol=1e-7, order=10, init_panels=200, max_rounds=48, dtype=None, extra_edges=()):
+def integrate_adaptive_1d(logp, a, b, tol=1e-7, order=10, init_panels=200, max_rounds=48, dtype=None, extra_edges=(), max_panels=200000):
     """Adaptive composite quadrature in one dimension for integrands with kinks and jumps.  A panel is
     accepted when (i) Gauss-Legendre on the panel and on its two halves agree and (ii) Gauss-Legendre and
     Gauss-Lobatto on the panel agree - the Lobatto rule samples the end points, so a jump hiding between the
@@ -77,6 +77,10 @@ def integrate_adaptive_1d(logp, a, b, tol=1e-7, order=10, init_panels=200, max_r
         if ok.all():
             return total
         bad = ~ok
+        if int(bad.sum()) * 2 > max_panels or not np.isfinite(err[bad]).all():
+            # an integrand that is not a number somewhere (every panel containing the spot fails for ever and the
+            # work doubles each round), or one that needs more panels than any density should: no value
+            return float("nan")
         lo, hi, whole = np.concatenate([lo[bad], mid[bad]]), np.concatenate([mid[bad], hi[bad]]), np.concatenate([left[bad], right[bad]])
     return total + float(whole.sum())
 
